@@ -567,19 +567,40 @@ func (t *Terminal) handleKey(key rune) (line []string, ok bool) {
 		t.setLine(t.line, t.pos)
 	case keyEnter:
 		strline := strings.TrimSpace(string(t.line))
-		// if the last thing entered was a query terminator
-		if len(strline) == 0 || strline[len(strline)-1:] == ";" {
+
+		// the query terminators: semicolons that are not inside a quoted
+		// string literal ('...') or a quoted identifier ("...")
+		var terminators []int
+		var quote rune
+		for cur := 0; cur < len(t.line); cur++ {
+			switch r := t.line[cur]; {
+			case quote != 0:
+				if r == quote {
+					quote = 0
+				}
+			case r == '\'' || r == '"':
+				quote = r
+			case r == ';':
+				terminators = append(terminators, cur)
+			}
+		}
+		// was the last thing entered a query terminator?
+		terminated := false
+		if len(terminators) > 0 {
+			rest := string(t.line[terminators[len(terminators)-1]+1:])
+			terminated = len(strings.TrimSpace(rest)) == 0
+		}
+
+		if len(strline) == 0 || terminated {
 			// not sure what this is for
 			t.moveCursorToPos(len(t.line))
 			t.queue([]rune("\r\n"))
 
 			// split string until queries terminated by ;
 			begin := 0
-			for cur := 0; cur < len(t.line); cur++ {
-				if t.line[cur] == 59 {
-					line = append(line, strings.TrimSpace(string(t.line[begin:cur+1])))
-					begin = cur + 1
-				}
+			for _, cur := range terminators {
+				line = append(line, strings.TrimSpace(string(t.line[begin:cur+1])))
+				begin = cur + 1
 			}
 
 			ok = true
